@@ -77,8 +77,12 @@ def rule_r2(prog, res) -> None:
     conf = prog.find_class("Configuration")
     binc = prog.find_class("BinningConfig")
     n = 0
+    from ..inline import inlined
+
     for m in conf.methods.values():
         cfg = None
+        # same-module helpers through which the binning is built (e.g. a section parser) are expanded in place
+        m = inlined(prog, m, keep={"parse_cosmology"})
         for call in calls_in(m):
             f = call.func
             tg = prog.resolve_call(m, call)
